@@ -16,13 +16,16 @@ assert MODEL in ("asis", "repaired")
 THEOREMS = ["C36_canon_rel_total", "C36_canon_idempotent", "C36_canon_idempotent_unique", "C36_canonicalize_idempotent",
             "C36_canon_idempotent_needs_no_sentinel", "C36_canon_perm_invariant", "C36_canon_perm_invariant_needs_injective",
             "C36_run_report_order_independent",
-            "C36_canon_perm_invariant_repaired", "C36_canon_idempotent_repaired", "C36_run_report_order_independent_repaired"]
+            "C36_canon_perm_invariant_repaired", "C36_canon_idempotent_repaired", "C36_run_report_order_independent_repaired",
+            "C36_run_report_leaves_task_diagnostics_unchanged", "C36_run_heap_rerun_same", "C36_run_heap_is_run_report",
+            "C36_run_alias_changes_task"]
 AXIOMS_OK = []
 TRUSTED = ["hand-written Gallina model of Report.Canonicalize (Model/Canon.v): the sort is a relation (any sorted permutation), "
            "marking and deletion are functions as written",
            "correspondence harness (harness/cmd/canon) + verif hook report.VerifNewDiagnostic/VerifViewDiagnostic",
-           "incremental.Run is modelled only as: the reports of the visited tasks, each once, appended in some order, then Canonicalize; "
-           "that each task's own report is a function of the inputs is exercised (parallelism 1..8, repeated, cached re-run), not proved"]
+           "incremental.Run is modelled as: the diagnostic slices of the visited tasks, each once, appended in some order to a report slice "
+           "(heap of backing arrays, append in place or reallocating, any growth policy), then Canonicalize in place; "
+           "that each task's own report is a function of the inputs is exercised (parallelism 1..8, repeated, re-run on the same executor), not proved"]
 ASSUMPTIONS = ["permutation invariance is proved under keys_injective: no two different diagnostics of the list agree on all six sort keys "
                "(path of primary span, sortOrder, start, end, tag, message); without it the statement is false (C36_canon_perm_invariant_needs_injective)",
                "idempotence is proved under no_sentinel: no diagnostic has level -1, the value Canonicalize uses as its deletion mark "
@@ -251,7 +254,7 @@ def run(ctx):
     rng = ctx.rng
     # ---- part 1: Canonicalize on generated lists and on permutations of them
     lists = list(canon_corpus())
-    for k in range(ctx.budget(100, 12000)):
+    for k in range(ctx.budget(80, 12000)):
         n = rng.choice([0, 1, 2, 3, 4, 5, 6, 8, 11, 12, 13, 14, ctx.budget(15, 20), ctx.budget(20, 30), ctx.budget(16, 60)])
         lists.append(gen_list(rng, n, small=rng.chance(2, 3), sentinel=(k % 7 == 0)))
     ins, meta = [], []
@@ -267,7 +270,7 @@ def run(ctx):
             meta.append(li)
     ncanon = len(ins)
     cmp_ins = []
-    for _ in range(ctx.budget(250, 10000)):
+    for _ in range(ctx.budget(200, 10000)):
         files = [{"path": hx(rng.choice(PATHS))} for _ in range(2)]
         a = gen_diag(rng, 2, 1, small=rng.chance(1, 2))
         b = gen_diag(rng, 2, 2, small=rng.chance(1, 2))
@@ -358,7 +361,7 @@ def run(ctx):
     wss = []
     for p, t in td:
         wss.append(([{"path": p, "text": t}], [p], "testdata"))
-    for _ in range(ctx.budget(20, 600)):
+    for _ in range(ctx.budget(12, 600)):
         k = rng.range(2, 6)
         pick = [rng.choice(td) for _ in range(k)] if td else []
         seen, files = set(), []
@@ -368,7 +371,7 @@ def run(ctx):
                 files.append({"path": p, "text": t})
         if files:
             wss.append((files, [f["path"] for f in files], "testdata-combined"))
-    for _ in range(ctx.budget(70, 4000)):
+    for _ in range(ctx.budget(50, 4000)):
         files, ws = gen_workspace(rng)
         wss.append((files, ws, "generated"))
     reps = ctx.budget(3, 8)
@@ -403,6 +406,19 @@ def run(ctx):
             for key, what, detail in classify_diff(i["files"], o["full"], dd["full"]):
                 ctx.violation(key, "same workspace, same parallelism, run %s vs run 0: %s" % (dd["rep"], what),
                               {"input": small, "run": dd["rep"], "report_a": o["render"], "report_b": dd["render"], "detail": detail})
+        for rr in o.get("reruns", []):
+            A, B = [json.loads(x) for x in o["full"]], [json.loads(x) for x in rr["full"]]
+            if sorted(o["full"]) == sorted(rr["full"]) and [six(d) for d in A] == [six(d) for d in B]:
+                ctx.violation("tie-order", "same executor, run %s vs run 1: %s" % (rr["run"], KNOWN_WHAT["tie-order"]),
+                              {"input": small, "run": rr["run"], "report_a": o["render"], "report_b": rr["render"]})
+            else:
+                idx = next((k for k, (x, y) in enumerate(zip(o["full"], rr["full"])) if x != y), min(len(A), len(B)))
+                ctx.violation("report-differs-on-rerun-same-executor",
+                              "running the same queries again on the same executor (all cache hits, nothing evicted) reports different diagnostics "
+                              "than the first run did",
+                              {"input": small, "run": rr["run"], "first_differing_index": idx,
+                               "report_run_1": o["render"], "report_run_n": rr["render"],
+                               "element_run_1": A[idx] if idx < len(A) else None, "element_run_n": B[idx] if idx < len(B) else None})
         per_ws.setdefault(wi, []).append((i["par"], o))
     for wi, runs in per_ws.items():
         p0, o0 = runs[0]
@@ -416,6 +432,39 @@ def run(ctx):
                     ctx.violation(key, "same workspace, parallelism %d vs %d: %s" % (p0, p, what),
                                   {"files": wss[wi][0], "workspace": wss[wi][1], "par_a": p0, "par_b": p,
                                    "report_a": o0["render"], "report_b": o["render"], "detail": detail})
+    # ---- part 3: synthetic query graphs, several diagnostics per task, repeated Runs on one executor
+    sins = [{"mode": "synth", "par": par, "roots": ["root"], "other": ["zzz"],
+             "nodes": [{"name": "root", "n": 5, "level": 2, "deps": ["aaa", "zzz"]}, {"name": "aaa", "n": 1, "level": 2, "deps": []},
+                       {"name": "zzz", "n": 1, "level": 2, "deps": []}]} for par in (1, 2, 4, 8)]
+    pool = ["aaa", "bbb", "mmm", "root", "yyy", "zzz", "ccc", "nnn"]
+    for _ in range(ctx.budget(120, 3000)):
+        names = rng.shuffle(pool)[:rng.range(2, 7)]
+        nodes = []
+        for k, nm in enumerate(names):
+            later = names[k + 1:]
+            deps = [d for d in later if rng.chance(1, 2)]
+            nodes.append({"name": nm, "n": rng.choice([0, 1, 1, 2, 3, 5, 6, 9]), "level": rng.choice([2, 2, 3, 4]), "deps": deps})
+        roots = [names[0]] + [nm for nm in names[1:] if rng.chance(1, 5)]
+        other = [nm for nm in names if nm not in roots and rng.chance(1, 2)][:2]
+        sins.append({"mode": "synth", "par": rng.choice([1, 2, 4, 8]), "roots": roots, "other": other, "nodes": nodes})
+    souts = ctx.impl("canon", sins, shards=min(NCPU, 8))
+    for i, o in zip(sins, souts):
+        if "crash" in o or "panic" in o or "err" in o:
+            ctx.count(("synth", json.dumps(i, sort_keys=True)), True, "synth:failed")
+            ctx.notes.append("synthetic case failed (not a determinism verdict): %s" % json.dumps(o)[:300])
+            continue
+        ctx.count(("synth", json.dumps(i, sort_keys=True)), len(o["ref"]) > 0, "synth")
+        ctx.traces += 5
+        if o["runs"][0] != o["ref"]:
+            ctx.violation("report-differs-between-runs", "synthetic query graph: a fresh executor and another fresh executor report different diagnostics "
+                          "(all messages are distinct, so the canonical order is unique)", {"input": i, "fresh": o["ref"], "first_run": o["runs"][0]})
+        for k, got in enumerate(o["runs"][1:], 2):
+            if got != o["runs"][0]:
+                ctx.violation("report-differs-on-rerun-same-executor",
+                              "synthetic query graph: run %d on the same executor (all cache hits) reports different diagnostics than run 1" % k,
+                              {"input": i, "run_1": o["runs"][0], "run_%d" % k: got})
+                break
+    ctx.extra["synthetic_graphs"] = len(sins)
     ctx.extra["compile"] = {"workspaces": len(wss), "runs": ctx.traces, "diagnostics_seen": ndiag,
                             "adjacent_pairs_equal_on_all_six_keys_and_identical": ties_same,
                             "adjacent_pairs_equal_on_all_six_keys_but_different": ties_distinct,
@@ -428,5 +477,5 @@ def run(ctx):
                 "(sorted permutation + dedup as written + second pass); pairs through the real comparison vs dcmp. "
                 "(2) workspaces: every ir/testdata .proto, random combinations of them, and generated invalid multi-file workspaces (duplicate symbols "
                 "across files, extension number clashes, missing/cyclic/duplicate imports, unknown types, syntax damage), each compiled with "
-                "parallelism 1..8 (quick tier: 1, 2, 4, 8) x %d fresh executors + a cached re-run; rendered report and every diagnostic compared element-wise. "
+                "parallelism 1..8 (quick tier: 1, 2, 4, 8) x %d fresh executors; on the first executor the same queries are run three more times (same session, all cache hits, no eviction) with an unrelated Run (File of any.proto) and a related one (AST of the first file) in between; rendered report and every diagnostic compared element-wise. (3) synthetic query graphs (2..7 tasks, 0..9 distinct diagnostics each, reported before and after resolving dependencies): a fresh-executor reference and four Runs on one executor with a Run of other roots in between, all reports equal. "
                 "distinct = distinct input; non-trivial = >= 2 diagnostics in the list / >= 1 diagnostic reported" % reps)
